@@ -2,13 +2,18 @@
 Model of crem's CSV loading (property C20; `render` is reused by C13).
 
 Go code modelled
-  internal/pkg/dataset/csv/CsvDataSet.go   parseCsvText, ParseCsvTextIntoTable, deriveTableFromRecords,
-                                           deriveContextFromRecords, assignTableHeaders/Content, toBaseType
+  internal/pkg/dataset/csv/CsvDataSet.go   parseCsvText, ParseCsvTextIntoTable, ParseCsvTextIntoTableWithTextColumns,
+                                           deriveTableFromRecords, deriveContextFromRecords, deriveTextColumns,
+                                           assignTableHeaders/Content, toBaseType, Errors
+  internal/pkg/dataset/DataSet.go          AddTable, Table (a data set that is loaded into more than once: section 3b)
   internal/pkg/dataset/tables/baseTable.go SetColumnAndRowSize, ColumnAndRowSize, Cell, CellString, CellFloat64
   pkg/strings/BaseCaster.go                Cast with numbersAsFloats = true
   encoding/csv (go 1.23) Reader            as configured there: Comma ',', Comment 0, FieldsPerRecord 0,
                                            LazyQuotes false, TrimLeadingSpace true; ReadAll
   strconv.ParseFloat(s, 64), ParseBool     the accepted grammar, the range error, the correctly rounded value
+
+Exponents saturate as in Go (`scanExp`: `e < 10000`), which changes no value: such literals are
+far beyond overflow / underflow either way.
 
 Everything is on byte lists (`List UInt8`): the property quantifies over all byte
 strings and Go strings are arbitrary byte strings.  Core Lean only (the driver
@@ -346,10 +351,13 @@ Go's three conversion paths (exact float arithmetic, Eisel-Lemire, multiprecisio
 exact rational.  `none` = the value is at least half an ulp beyond the largest finite float
 (ParseFloat returns ±Inf with ErrRange; `Cast` then does not treat the string as a number).
 
-Known divergence of strconv itself (go1.23 and go1.26), outside the validated range: a mantissa
-with more than 800 digits and no decimal point is mis-scaled by the slow path (`decimal.set`
-takes `dp` from the number of *stored* digits), when Eisel-Lemire gives up.  The correspondence
-generator therefore stops at 780 mantissa digits. -/
+Known defect of strconv itself (go1.23 and go1.26), which bounds the model's scope: for a decimal
+literal whose point comes after more than 800 mantissa digits (or is absent) the slow path
+(`decimal.set`) takes the point's position from the number of *stored* digits (800 at most), so the
+value comes out 10^(d−800) times too small (d = digits before the point) — whenever Eisel-Lemire
+gives up, a few such inputs in a thousand.  The model follows mathematics there; it is claimed to
+be `strconv.ParseFloat` only for `mantDigits ≤ 800` (section 5), the correspondence generator stops
+at 780 mantissa digits, and one longer literal is kept in the corpus, judged against strconv only. -/
 
 def bitsInf : Nat := 0x7FF0000000000000
 def bitsNaN : Nat := 0x7FF8000000000001      -- what `math.NaN()` returns
@@ -438,6 +446,11 @@ def cast (s : Bytes) : Cell :=
 structure Table where
   header : List Bytes
   cells : List (List Cell)
+  /-- `baseTable.colNum`: the column count remembered by `SetColumnAndRowSize`.  Go keeps it apart from
+  the header (`CsvTableImpl.header`), and so does the model; that the two agree after a load is a
+  theorem (`load_colNum`), not a definition.  The default only serves table literals written
+  without it. -/
+  colNum : Nat := header.length
   deriving DecidableEq, Repr
 
 /-- where the Go code indexes unconditionally (the theorems show the site is never reached) -/
@@ -480,9 +493,10 @@ def deriveTable (records : List (List Bytes)) : Load :=
   match records with
   | [] => .error .noRecords
   | hdr :: rows =>
-    match deriveRows hdr.length rows with
+    let colSize := hdr.length          -- deriveContextFromRecords: `uint(len(inputRecords[0]))`
+    match deriveRows colSize rows with
     | none => .panic .cellIndex
-    | some cells => .ok { header := hdr, cells := cells }
+    | some cells => .ok { header := hdr, cells := cells, colNum := colSize }   -- SetColumnAndRowSize(colSize, rowSize); SetHeader
 
 /-- `DataSet.ParseCsvTextIntoTable(name, text)` observed through `Errors()` and `Table(name)` -/
 def load (text : Bytes) : Load :=
@@ -490,9 +504,93 @@ def load (text : Bytes) : Load :=
   | .error e => .error e
   | .ok records => deriveTable records
 
-/-- `baseTable.ColumnAndRowSize()`: the column count remembered by `SetColumnAndRowSize`
-(= `len(records[0])`, the header's length) and the number of rows -/
-def columnAndRowSize (t : Table) : Nat × Nat := (t.header.length, t.cells.length)
+/-- `baseTable.ColumnAndRowSize()`: `bt.colNum` (remembered by `SetColumnAndRowSize`) and
+`len(bt.cells)` -/
+def columnAndRowSize (t : Table) : Nat × Nat := (t.colNum, t.cells.length)
+
+/-! ### 3a. `ParseCsvTextIntoTableWithTextColumns`: columns whose heading is one of `textHeadings`
+keep the text of their fields (`context.textColumns[colIndex]`), all others are cast -/
+
+/-- `deriveTextColumns(header, textHeadings)[colIndex]` for the column with this heading: the heading
+equals one of `textHeadings` (a Go map from column index to `true`) -/
+def isTextColumn (textHeadings : List Bytes) (heading : Bytes) : Bool := textHeadings.contains heading
+
+/-- what `assignTableContent` stores for one field of a column with heading `h` -/
+def castIn (textHeadings : List Bytes) (h f : Bytes) : Cell :=
+  if isTextColumn textHeadings h then .text f else cast f
+
+/-- inner loop of `assignTableContent` with text columns; it walks the header's columns
+(`colIndex < colSize = len(header)`), `none` = `records[row][col]` out of range -/
+def deriveRowT (ths : List Bytes) : List Bytes → List Bytes → Option (List Cell)
+  | [], _ => some []
+  | _ :: _, [] => none
+  | h :: hs, f :: fs =>
+    match deriveRowT ths hs fs with
+    | none => none
+    | some cs => some (castIn ths h f :: cs)
+
+def deriveRowsT (ths hdr : List Bytes) : List (List Bytes) → Option (List (List Cell))
+  | [] => some []
+  | r :: rs =>
+    match deriveRowT ths hdr r with
+    | none => none
+    | some c =>
+      match deriveRowsT ths hdr rs with
+      | none => none
+      | some cs => some (c :: cs)
+
+/-- `deriveTableFromRecords(records, textHeadings...)` -/
+def deriveTableT (ths : List Bytes) (records : List (List Bytes)) : Load :=
+  match records with
+  | [] => .error .noRecords
+  | hdr :: rows =>
+    match deriveRowsT ths hdr rows with
+    | none => .panic .cellIndex
+    | some cells => .ok { header := hdr, cells := cells, colNum := hdr.length }
+
+/-- `DataSet.ParseCsvTextIntoTableWithTextColumns(name, text, textHeadings...)` on a fresh data set,
+observed through `Errors()` and `Table(name)`; `ParseCsvTextIntoTable` is the case without
+headings (`loadT_nil`) -/
+def loadT (ths : List Bytes) (text : Bytes) : Load :=
+  match readAll text with
+  | .error e => .error e
+  | .ok records => deriveTableT ths records
+
+/-! ### 3b. a data set that is loaded into more than once
+
+`ds.errors` only grows (`Errors()` reports every error since `NewDataSet`), and `AddTable` refuses a
+name that is already there.  `reportDuplicate` distinguishes the code as found (`false`:
+`ParseCsvTextIntoTableWithTextColumns` dropped `AddTable`'s error, so a second text under a used
+name gave neither a table nor an error) from the repaired code (`true`: the refusal is added to
+`ds.errors`). -/
+
+/-- an entry of `ds.errors`, by class -/
+inductive DsErr where
+  | csv (e : CsvErr)      -- the reader's error / "no header record"
+  | duplicateTable        -- `AddTable`: "table with name … already in DataSet"
+  deriving DecidableEq, Repr
+
+structure DataSet where
+  errors : List DsErr := []
+  tables : List (Bytes × Table) := []     -- Go: `map[string]Table`; `AddTable` keeps the names distinct
+  deriving DecidableEq, Repr
+
+/-- `DataSetImpl.Table(name)` -/
+def DataSet.table? (ds : DataSet) (name : Bytes) : Option Table :=
+  match ds.tables.find? (fun p => p.1 == name) with
+  | some p => some p.2
+  | none => none
+
+/-- `ParseCsvTextIntoTableWithTextColumns(name, text, ths...)` on any data set (`none` = panic) -/
+def DataSet.parseInto (reportDuplicate : Bool) (ds : DataSet) (name : Bytes) (ths : List Bytes) (text : Bytes) :
+    Option DataSet :=
+  match loadT ths text with
+  | .error e => some { ds with errors := ds.errors ++ [.csv e] }
+  | .panic _ => none
+  | .ok t =>
+    match ds.table? name with
+    | some _ => some (if reportDuplicate then { ds with errors := ds.errors ++ [.duplicateTable] } else ds)
+    | none => some { ds with tables := ds.tables ++ [(name, t)] }
 
 /-- what `CellString` returns -/
 inductive StrOut where
@@ -561,6 +659,36 @@ def renderQ : List (List Bytes) → Bytes
 def wellFormedRowsQ (n : Nat) (rows : List (List Bytes)) : Bool :=
   n ≥ 1 && rows.all (fun r => r.length == n && r.all (fun f => f.all (· != bCR)))
 
+/-! ### `renderM`: a writer that mixes both styles, field by field
+
+Not used by crem; it is the reference writer for texts in which quoted and unquoted fields, with
+and without a space before them, stand side by side (`renderM_parse`).  `q f` = the field is
+written quoted, `sp f` = one space is written before it. -/
+
+def fieldM (q sp : Bytes → Bool) (f : Bytes) : Bytes :=
+  (if sp f then [bSpace] else []) ++ (if q f then quoteField f else f)
+
+def renderRowM (q sp : Bytes → Bool) : List Bytes → Bytes
+  | [] => []
+  | [f] => fieldM q sp f
+  | f :: g :: fs => fieldM q sp f ++ bComma :: renderRowM q sp (g :: fs)
+
+def renderM (q sp : Bytes → Bool) : List (List Bytes) → Bytes
+  | [] => []
+  | r :: rs => renderRowM q sp r ++ bNL :: renderM q sp rs
+
+/-- rows `renderM q sp` can carry: every row has the field count `n ≥ 1`, no field contains `\r`,
+every field written without quotes is plain, and no row is written as an empty line (the single
+empty field, unquoted and without a space) -/
+def wellFormedRowsM (q sp : Bytes → Bool) (n : Nat) (rows : List (List Bytes)) : Bool :=
+  n ≥ 1 && rows.all (fun r => r.length == n && r.all (fun f => f.all (· != bCR) && (q f || plainField f))
+    && !(r == [[]] && !q [] && !sp []))
+
+/-- complete fields of a row that goes on: each one written and followed by its comma -/
+def fieldsM (q sp : Bytes → Bool) : List Bytes → Bytes
+  | [] => []
+  | f :: fs => fieldM q sp f ++ bComma :: fieldsM q sp fs
+
 /-! ## 5. specification vocabulary of C20 (used by the theorems; decidable, so the driver can
 evaluate the excluding hypotheses on a witness) -/
 
@@ -572,6 +700,28 @@ def specCell (f : Bytes) : Cell :=
   match parseFloat f with
   | some bits => .num bits
   | none => .text f
+
+/-- a string of decimal digits only -/
+def allDigits (ds : Bytes) : Bool := ds.all isDigit
+
+/-- the natural number a string of decimal digits denotes (independent of `scanMant`) -/
+def natOf (ds : Bytes) : Nat := ds.foldl (fun acc c => acc * 10 + (c - 0x30).toNat) 0
+
+/-- IEEE-754 binary64 pattern of a natural number below 2^53 (those are exactly representable):
+biased exponent `1023 + ⌊log₂ n⌋`, fraction = `n` shifted so that its leading bit is bit 52, that
+bit removed -/
+def bitsOfNat (n : Nat) : Nat :=
+  if n = 0 then 0 else (1023 + n.log2) * 2 ^ 52 + (n * 2 ^ (52 - n.log2) - 2 ^ 52)
+
+/-- number of significant decimal mantissa digits of a float literal (counted from the first
+non-zero digit; 0 for hexadecimal literals, `inf`/`nan` and non-literals).  Up to 800 of them
+strconv's multiprecision fallback stores the mantissa completely; beyond, it is known to
+mis-scale (see `Lit.bits`), and the model — which follows mathematics — is not claimed to be
+`strconv.ParseFloat` there. -/
+def mantDigits (f : Bytes) : Nat :=
+  match parseLit f with
+  | some (.dec _ _ nd _) => nd
+  | _ => 0
 
 /-- a non-numeric field `strconv.ParseBool` accepts: `t T TRUE true True f F FALSE false False` -/
 def boolSpelled (f : Bytes) : Bool := !isNumeric f && (parseBool f).isSome
